@@ -13,7 +13,7 @@ import (
 	"unsafe"
 )
 
-const defaultHeapLimit = int64(1) << 30 // live heap ceiling when a check sets no budget
+const defaultHeapLimit = int64(1) << 30 // ceiling on live-heap growth within a case when a check sets no budget
 
 // Exit codes of a worker process.
 const (
@@ -44,6 +44,14 @@ func guards(c *Ctx, out string, stall time.Duration) {
 			metrics.Read(s)
 			live := int64(s[0].Value.Uint64())
 			if lim := c.heapLimit.Load(); live > lim {
+				// garbage the collector has not got round to yet counts in
+				// this metric: collect and look again before calling it
+				runtime.GC()
+				metrics.Read(s)
+				live = int64(s[0].Value.Uint64())
+				if live <= c.heapLimit.Load() {
+					continue
+				}
 				desc := c.currentString()
 				c.Violation("HEAP/"+sigHead(desc), fmt.Sprintf("live heap %d bytes exceeds the budget of %d bytes during: %s", live, lim, clip(desc, 300)),
 					map[string]interface{}{"live_heap": live, "budget": lim, "call": clip(desc, 9000)})
@@ -202,6 +210,7 @@ func WorkerMain(chk Check, env Env, args []string) {
 			writeCurrent(c.curFile, phase, idx, "")
 		}
 		c.Tick()
+		c.startCase()
 		runCase(chk, c, phase, idx)
 		c.mu.Lock()
 		c.res.CasesDone++
